@@ -413,8 +413,13 @@ func makeOptionalPtrDecoder(typ reflect.Type) (decoder, error) {
 	if err != nil {
 		return nil, err
 	}
+	nilKind := nilPtrKind(etype)
 	dec := func(s *Stream, val reflect.Value) (err error) {
 		kind, size, err := s.Kind()
+		if err == nil && size == 0 && kind != Byte && nilKind >= 0 && kind != nilKind {
+			// only the empty value the encoder writes for a nil pointer means nil
+			return &decodeError{msg: "wrong kind of empty value", typ: typ}
+		}
 		if err != nil || size == 0 && kind != Byte {
 			// rearm s.Kind. This is important because the input
 			// position must advance to the next value even though
@@ -434,6 +439,24 @@ func makeOptionalPtrDecoder(typ reflect.Type) (decoder, error) {
 		return err
 	}
 	return dec, nil
+}
+
+// nilPtrKind returns the kind of the empty value that the encoder writes for
+// a nil pointer to etype (see makePtrWriter), or -1 if it is not known.
+func nilPtrKind(etype reflect.Type) Kind {
+	k := etype.Kind()
+	switch {
+	case etype.Implements(encoderInterface) || reflect.PtrTo(etype).Implements(encoderInterface):
+		return -1
+	case (k == reflect.Array || k == reflect.Slice) && isByte(etype.Elem()):
+		return String
+	case k == reflect.Struct || k == reflect.Array || k == reflect.Slice:
+		return List
+	case isUint(k) || k == reflect.Bool || k == reflect.String:
+		return String
+	default:
+		return -1
+	}
 }
 
 var ifsliceType = reflect.TypeOf([]interface{}{})
